@@ -233,7 +233,8 @@ CHECKS = {
              "C10_arc_const_radius, C10_arc_sweep (monotone in the selected direction, sweep in (0, 2pi], congruent to the angle "
              "start->target), C10_arc_z_linear, C10_circle_full_turn, C10_arcR_equidistant and C10_arcR_minor_major (sign of the "
              "radius selects minor/major arc in either direction), C10_helix_ends / _radius (linear) / _turns / _monotone, "
-             "C10_spiral_radius, C10_thread_radius (constant), C10_vertex_exact (polyline vertices, exact rationals). Tie: for every "
+             "C10_spiral_radius, C10_thread_radius (constant), C10_vertex_exact (polyline vertices, exact rationals), "
+             "C10_spline_controls (the interpolant is built on origin + the given points in order, only immediate repetitions merged). Tie: for every "
              "generated closed-form request, emitted vertices of the real tracer are placed on the curve of model/TracerR.v by "
              "kernel-checked interval arithmetic (1e-9 relative); independent binary64 oracle for start/contiguity/on-curve/"
              "monotone/sweep/turns/z/end; spline: oracle only (within one resolution of every control point, in order).",
@@ -265,7 +266,7 @@ CHECKS = {
              "interleavings of print thread, firmware and read thread, with an arbitrary good/corrupted flag on every transmission. "
              "Proved: C15_safety (accepted log always a contiguous in-order duplicate-free slice of the job's commands, a prefix when the "
              "reset got through), C15_numbering (line numbers = commands sent, stored lines and good frames carry (k, command k)), "
-             "C15_resend (a resend request restarts transmission at the requested stored line), C15_complete_clean (clean link, any "
+             "C15_resend (a resend request restarts transmission at the requested stored line), C15_window (wire + replies + clear flag <= 1 + rejections), C15_complete_clean (clean link, any "
              "latency: at quiescence the whole job is accepted), C15_xor_detects_single, C15_frame_roundtrip (the firmware reads back "
              "(k, command, checksum ok) from frame_bytes k command, for every k and command text). Completeness under corruption is REFUTED for "
              "the faithful model: C15_refuted_tail, C15_refuted_m110 = the two recorded findings. Tie: the real printcore streams "
@@ -280,7 +281,7 @@ CHECKS = {
     "C16": dict(
         text="PARTIAL. model/Direct.v = write() (clear ack, enqueue, wait, re-raise) x printcore queue/sender thread x FIFO device x "
              "reader callback; runs = all interleavings. Proved: C16_order (device receive log ++ queue == statements written, call "
-             "order, exactly once, for every device behaviour), C16_sync + C16_return_after_own_ack (from a quiescent start, any latency, "
+             "order, exactly once, for every device behaviour), C16_sync + C16_return_after_own_ack + C16_readings_available (from a quiescent start, any latency, "
              "any unsolicited status lines, error replies anywhere: write() completes only after the terminator of its own statement was "
              "handled; whenever no write is in progress everything is sent and acknowledged = what disconnect(wait) waits for), "
              "C16_error_surfaces / C16_raises_only_on_error (an error/alarm/!! line makes the next completing write raise; no raise "
